@@ -7,10 +7,11 @@ import tempfile
 import common as C
 
 PID = "C18"
-DRIVER = [("C18", "TfPwaV.Model.Data", "Data.handle")]
-LEAN_TARGETS = ["TfPwaV.Props.C18"]
-PROP_MODULES = ["TfPwaV.Props.C18"]
-ALL_MODULES = ["TfPwaV.Model.Data", "TfPwaV.Proofs.Data", "TfPwaV.Props.C18"]
+DRIVER = [("C18", "TfPwaV.Model.Data", "Data.handle"), ("C18b", "TfPwaV.Model.DataX", "DataX.handle")]
+LEAN_TARGETS = ["TfPwaV.Props.C18", "TfPwaV.Props.C18b"]
+PROP_MODULES = ["TfPwaV.Props.C18", "TfPwaV.Props.C18b"]
+ALL_MODULES = ["TfPwaV.Model.Data", "TfPwaV.Proofs.Data", "TfPwaV.Props.C18",
+               "TfPwaV.Model.DataX", "TfPwaV.Proofs.DataX", "TfPwaV.Props.C18b"]
 ASSUMPTIONS = [
     "leaves are arrays with >= 1 axis whose leading axis is the event axis (axis=0 of data_split/data_merge); 0-d leaves raise in _data_split and are outside the model",
     "a leaf is modelled by the list of its rows; inner shape and dtype are carried by numpy/tf slicing and concat unchanged (validated by the numpy oracle, not modelled)",
@@ -23,6 +24,12 @@ ASSUMPTIONS = [
     "LazyCall batches are consumed by iteration (for ... in L, as batch_call does); list(L) additionally calls LazyCall.__len__ = data_shape(eval of x), which raises for an x without arrays (not part of the model)",
     "LazyCall: the plain and the nested (x is a LazyCall) branches of __iter__ are modelled (fixed code: _split_extra); the HeavyCall branch ({**i, **j} over cached_batch[batch_size], populated by as_dataset) is compared with the same model lazyIterF on dict-only data (correspondence) and with the eager value {**f(x), **extra} by the search (plain iteration, data_split+data_merge, batch_call, eval; alone, via data_replace, inside and around plain LazyCalls; extras colliding with output keys and not)",
     "outside the model (parameters, only exercised): tf.data itself (Dataset.from_tensor_slices(...).batch(b).map(f) is taken to yield f on the row windows, prefetch/AUTOTUNE order-preserving), tf.function tracing of the heavy function, the on-disk cache (set_cached_file / Dataset.cache(file)), LazyFile (from_generator, mmap), LazyCall.merge of HeavyCall objects, lists inside x of a HeavyCall (from_tensor_slices turns a list into one tensor)",
+    "C18b (model TfPwaV.DataX): data_cut is modelled for one comparison 'v <cmp> c' on one addressed 1-d array (var_map path); the sympy parsing / lambdify of the expression is a parameter (validated on the 4 comparison operators)",
+    "C18b: flatten_dict_data keys are modelled as strings ('#i' = Python int i, '@name' = key object printing as name; str() of a key = strKey); the theorem flatten_lossless assumes that no two assignments of the loop use the same key (NoColl) -- the colliding case is a proved and observed loss (flatten_collision_loses), reported as a limitation of the function, not as a violation of C18",
+    "C18b: a LazyCall object is modelled by (x, extra, batch_size) in a pure model: object identity / aliasing (copy() must not share the extra dict) is checked by the search only; cached_batch, cached_file, name, prefetch are not modelled",
+    "C18b: LazyFile is modelled as the LazyCall of the identity with eval() = x (its tf.data.Dataset.from_generator pipeline is built but not consumed by plain iteration; mmap_mode is numpy's); dict-only x (tf output signatures do not accept lists)",
+    "C18b: SimpleData methods get_dat_order / savetxt / load_p4 / load_weight_file / load_extra_var are run on a SimpleData object created without the amplitude machinery (object.__new__ + the attributes they read); the full ConfigLoader path (load_data, get_n_data, lazy_call) is exercised by the search on a 3-body decay",
+    "C18b: check_nan correspondence encodes NaN as the integer 99999; save_data / load_data / save_dataz (numpy pickling) are validated as identity incl. key order, not modelled",
     "the theorems named without suffix F describe the generator before fix 15c726c (kept: they state exactly what the MAX_ITER branch lost); the suffix-F theorems describe the code now in /repo; the harness observes the variant and compares with the matching model",
 ]
 
@@ -516,6 +523,8 @@ def correspond(ctx, res):
                   {"op": l[:1500], "impl": a[:1500], "model": b[:1500], "n_disagree": len(dis),
                    "kinds": sorted({d[3][0] for d in dis})})
         ctx.hints = dis[:20]
+    import c18_x
+    c18_x.correspond(ctx, res)      # round 2: the rest of data.py + dat_order / side-file plumbing (model TfPwaV.DataX)
 
 
 def canon_ans(s):
@@ -811,6 +820,8 @@ def search(ctx, res):
     # 5. lazy == eager
     search_lazy(ctx, res, rnd, D, stats, hard, mult)
     res.coverage["search"] = stats
+    import c18_x
+    c18_x.search(ctx, res)
 
 
 def search_files(ctx, res, rnd, D, tmp, stats, hard, mult):
@@ -1166,6 +1177,9 @@ def replay(ctx, payload):
     from tf_pwa import data as D
     r = payload.get("replay") or {}
     op = r.get("op")
+    if op == "x_search":
+        import c18_x
+        return c18_x.replay(ctx, payload)
     if op == "split_merge":
         t = unpack(r["tree"])
         b = r["b"]
@@ -1229,7 +1243,7 @@ def replay(ctx, payload):
 
 
 MANIFEST = {
-    "text": "Lean theorems over ALL nested dict/list/tuple data trees (structural induction, arbitrary depth and row type), all batch sizes b>0 and all event counts: the batches of data_split are exactly the row windows [j*b,(j+1)*b) of every leaf and their number is the minimum over the tree of ceil(n/b) (leaf), MAX_ITER (empty dict/list), 0 (empty tuple) (split_eq, split_count, split_sizes); data_merge of the batches is the data cut after (number of batches)*b rows (merge_split_general), hence equals the data when no empty container limits the iteration or ceil(n/b) <= MAX_ITER (merge_split) and provably loses rows otherwise (merge_split_truncated, split_empty_tuple); batch_call f = f(whole sample) for every f commuting with row windows, and the scalar broadcast rule (batch_call_eq, batch_call_scalar); data_mask keeps exactly the selected rows of every leaf in order (mask_leaf); load_dat_file(savetxt(p)) = p for every particle count / event count / number of files holding disjoint particle groups (load_multi_file, load_save_roundtrip); merged LazyCall batches = eval() (lazy_eq_eager); data_index hit/fallback/path rules. For the code after the fix (15c726c, now in /repo) every statement is proved with NO guard on empty containers, empty extra or the number of batches: splitF_batches, splitF_get, merge_splitF, batch_call_eqF, batch_call_scalarF, lazyIterF_batches, lazy_eq_eagerF (plain LazyCall, _split_extra) and lazy_nested_eq_eagerF (LazyCall of a LazyCall). The model is tied to tf_pwa.data by exact comparison on random trees, real files and LazyCall objects on every run; numpy oracles test the statements directly on the implementation.",
-    "note": "Model = TfPwaV.Data (hand-written; generators = lists of yielded values with the MAX_ITER branch and zip truncation mirrored; fixed variant 'finite list | repeat' selected by observing the tree). Validated, not proved: numpy/tf slicing, concat and boolean_mask act row-wise and keep inner shape/dtype; np.savetxt/loadtxt/save/load exactness; save_data/load_data pickling; tf.data (HeavyCall) batching; LazyFile; ConfigLoader dat_order plumbing (real files, permutations of a 3-body decay, text and npy); load_dat_file order=(0,1,2) (correspondence only). Finding of this check, repaired in /repo (15c726c, kind 'fixed' in known_findings.jsonl; the unrepaired variant stays in the model as refutation theorems and is reported under its own key if the fix is reverted): an empty dict/list stopped the iteration after 1000 batches, an empty tuple made data_split yield nothing, LazyCall with empty extra stopped after 1000 batches.",
-    "technique": "Lean 4 proof by structural induction over nested data trees (unbounded sizes) + exact differential correspondence with tf_pwa.data on random trees/real files + numpy-oracle search on the implementation",
+    "text": "Lean theorems over ALL nested dict/list/tuple data trees (structural induction, arbitrary depth and row type), all batch sizes b>0 and all event counts: the batches of data_split are exactly the row windows [j*b,(j+1)*b) of every leaf and their number is the minimum over the tree of ceil(n/b) (leaf), MAX_ITER (empty dict/list), 0 (empty tuple) (split_eq, split_count, split_sizes); data_merge of the batches is the data cut after (number of batches)*b rows (merge_split_general), hence equals the data when no empty container limits the iteration or ceil(n/b) <= MAX_ITER (merge_split) and provably loses rows otherwise (merge_split_truncated, split_empty_tuple); batch_call f = f(whole sample) for every f commuting with row windows, and the scalar broadcast rule (batch_call_eq, batch_call_scalar); data_mask keeps exactly the selected rows of every leaf in order (mask_leaf); load_dat_file(savetxt(p)) = p for every particle count / event count / number of files holding disjoint particle groups (load_multi_file, load_save_roundtrip); merged LazyCall batches = eval() (lazy_eq_eager); data_index hit/fallback/path rules. For the code after the fix (15c726c, now in /repo) every statement is proved with NO guard on empty containers, empty extra or the number of batches: splitF_batches, splitF_get, merge_splitF, batch_call_eqF, batch_call_scalarF, lazyIterF_batches, lazy_eq_eagerF (plain LazyCall, _split_extra) and lazy_nested_eq_eagerF (LazyCall of a LazyCall). Round 2 (Props/C18b over the model Model/DataX, same quantifiers): a mask and its complement partition the events of every array -- re-interleaving gives the array back, sizes add up (mask_partition), data_merge(data_mask(d,sel), data_mask(d,~sel)) is d with the same row permutation in every array (cut_then_merge), data_cut keeps exactly the events whose addressed entry satisfies the predicate (cut_rows); data_replace sets one key and keeps every other value and the key order (replace_keeps_others, replace_non_dict); data_strip removes the keys at every depth, is idempotent, is the identity on trees without them and keeps the other arrays in order (strip_idempotent, strip_unchanged); data_map functor laws, hence data_to_numpy / data_to_tensor keep structure and values (data_map_id, data_map_comp, data_map_leaves); data_shape = leading size of the first array, all_list in data_map order (data_shape_first, data_shape_uniform); flatten_dict_data holds every array exactly once in order when no joined key collides (flatten_lossless) and provably loses one otherwise (flatten_collision_loses); batch_sum(f) = f(whole sample) for every f additive over row prefixes, no algebraic law on + needed (batch_sum_eq_sum, batch_sum_no_batch); data_index(d, p+q) = data_index(data_index(d,p), q) (index_append); check_nan keeps the structure and flags exactly the arrays with a NaN (check_nan_shape); LazyCall object: L[k]=v; L[k'] (lazy_getitem_set), copy / as_dataset keep x and items (lazy_copy_getitem), L[k] is the value found under k in L.eval() and overrides a same-named output (lazy_getitem_eq), data_replace(L,k,v).eval() differs from L.eval() exactly at k (lazy_replace_eval), data_merge of LazyCalls holding pieces of one sample concatenates x and every attached item in the same piece order (lazy_merge_pieces), LazyCall(g, LazyFile(x)): merged batches = eval() (lazy_file_eq_eager), EvalLazy (eval_lazy_eq); file conventions: SimpleData.savetxt + load_p4 under the same dat_order return every particle its own momenta for EVERY duplicate-free order list, i.e. every permutation and sub-list of the final particles (dat_order_roundtrip, dat_order_independent), particle-major files with order=(0,1,2), split=[N] (load_order012); side files: entry i of the concatenated weight/charge files belongs to event i and masks, batches and merges act on (event, weight) pairs (weights_follow_rows, weights_default). Both models are tied to tf_pwa.data / config_loader.data by exact comparison on random trees, real files, LazyCall objects and SimpleData objects on every run; numpy / path oracles test the statements directly on the implementation, incl. the real ConfigLoader with weight and charge side files in eager and lazy_call mode.",
+    "note": "Models = TfPwaV.Data and TfPwaV.DataX (hand-written; generators = lists of yielded values with the MAX_ITER branch and zip truncation mirrored; fixed variant 'finite list | repeat' selected by observing the tree). Validated, not proved: numpy/tf slicing, concat and boolean_mask act row-wise and keep inner shape/dtype; np.savetxt/loadtxt/save/load exactness; save_data/load_data/save_dataz pickling incl. key order; tf.data (HeavyCall) batching; LazyFile's from_generator pipeline; LazyCall.merge followed by eval / iteration for arbitrary (non-piece) operands and key intersection of the extras (correspondence + search); object aliasing of LazyCall.copy / data_replace (search); sympy parsing of data_cut expressions; the full ConfigLoader path (load_data with cal_angle, get_n_data, get_data_index, MultiData kwargs plumbing, lazy_call mode: search on a 3-body decay, every dat_order in the thorough tier); SimpleData.get_dat_order(standard=True) and data_root_lhcb formats are not covered. Observed, not a C18 violation: flatten_dict_data silently overwrites on colliding joined keys and drops empty containers; load_extra_var does not check that a side file has at least n_data entries. Finding of this check, repaired in /repo (15c726c, kind 'fixed' in known_findings.jsonl; the unrepaired variant stays in the model as refutation theorems and is reported under its own key if the fix is reverted): an empty dict/list stopped the iteration after 1000 batches, an empty tuple made data_split yield nothing, LazyCall with empty extra stopped after 1000 batches.",
+    "technique": "Lean 4 proof by structural induction over nested data trees (unbounded sizes) + exact differential correspondence with tf_pwa.data / config_loader.data on random trees, real files, LazyCall and SimpleData objects + numpy/path-oracle search on the implementation",
 }
